@@ -199,6 +199,10 @@ def rule_volatility(chk, ea, rid):
     cfg, fn, C = ea.cfg, ea.fn, ea.C
     # the volatility local: argument of set_volatile mentions it
     sv = ea.setvol
+    if not sv:
+        chk.ob(rid, C, False, "the result is never marked with set_volatile(): volatility forced by extra parameters or inherited from "
+               "the input does not reach the result", fn, ea.mod, key="flag-in-set_volatile")
+        return
     if len(sv) != 1:
         raise AnalysisError(f"evaluate_action: expected one set_volatile call, found {len(sv)}")
     sv = sv[0]
